@@ -23,6 +23,9 @@ RULE = ("Cases = (function, history) -- plus a mixed-history unit whose historie
         "operation np.random.get_state() must equal the model's state bit for bit (a seeded call must leave it untouched; an unseeded call "
         "may advance it); seeded call repeated gives an identical result; int seed == RandomState(int) seed; unseeded call replayed from the "
         "saved global state (with Python's `random` module perturbed) gives an identical result, also when called with seed=np.random. "
+        "Fresh-interpreter differential: 2-5 seeded calls (latticisation family on one size with default and caller-supplied D mixed, or any "
+        "routines) made in the long-lived worker and again in a brand-new Python process must give bit-identical results. Dense unit: nearly "
+        "complete networks of 32-40 nodes. "
         "Non-trivial = a seeded step that completed without exception, whose result differs between seed and seed+1, preceded in the same "
         "history by at least one draw from the global generator; distinct by hash of (function, arguments, seed).")
 BOUNDS = {"n": "<=8", "history_length": "<=8", "functions": "all seed-accepting public functions"}
@@ -175,7 +178,9 @@ def _misc(draw, name):
         P = np.array(pts, dtype=float)
         D = np.sqrt(((P[:, None, :] - P[None, :, :]) ** 2).sum(-1))
         mt = draw(st.sampled_from(["euclidean", "neighbors", "matching", "clu-avg", "deg-avg", "deg-prod"]))
-        kw = {"eta": np.array([draw(st.sampled_from([-2.0, -1.0]))]), "gamma": np.array([draw(st.sampled_from([0.5, 1.0]))]),
+        ncomb = draw(st.sampled_from([2, 1, 3]))       # several (eta, gamma) combinations in one call: one seed drives all of them
+        kw = {"eta": np.array([draw(st.sampled_from([-2.0, -1.0, -0.5])) for _ in range(ncomb)]),
+              "gamma": np.array([draw(st.sampled_from([0.5, 1.0, 0.25])) for _ in range(ncomb)]),
               "model_type": mt, "model_var": draw(st.sampled_from(["powerlaw", "exponential"]))}
         if name == "generative_model":
             return (A, D, draw(st.integers(3, 6))), kw
@@ -276,6 +281,8 @@ def _prep(name, args, kwargs):
 
 def check(case, ctx):
     name = case["fn"]
+    if name == "<fresh>":
+        return check_fresh(case, ctx)
     mixed = name == "<mixed>"
     fails = []
     ctx.label("fn:" + name)
@@ -369,6 +376,108 @@ def check(case, ctx):
     return fails
 
 
+def check_fresh(case, ctx):
+    """The calls of the case are made here, in a worker that has already made thousands of unrelated library calls, and again in a
+    brand-new interpreter (bctverif/fresh.py). Identical arguments and seed must give identical results in both: anything the library
+    remembers between calls (memoised tables, caches keyed on size or identity, aliased buffers) shows up as a difference."""
+    import os, pickle, subprocess, sys
+    from .. import fresh
+    fails = []
+    ctx.label("fn:<fresh-interpreter>")
+    calls = []
+    here = []
+    for c in case["calls"]:
+        a, kw = _prep(c["fn"], c["args"], c["kwargs"])
+        kw = dict(kw)
+        kw["seed"] = int(c["seed"])
+        calls.append((c["fn"], a, kw))
+        o = ctx.call(getattr(bct, c["fn"]), *[_copy(x) for x in a], timeout=8.0, **{k: _copy(v) for k, v in kw.items()})
+        if o.status == "timeout":
+            return fails
+        here.append(("ok", fresh._norm(o.value)) if o.ok else ("exc", o.exc_name()))
+        ctx.label("fresh:" + c["fn"])
+    env = dict(os.environ)
+    env["PYTHONPATH"] = os.pathsep.join([os.path.dirname(os.path.dirname(os.path.dirname(os.path.abspath(__file__))))] + [p for p in env.get("PYTHONPATH", "").split(os.pathsep) if p])
+    try:
+        r = subprocess.run([sys.executable, "-m", "bctverif.fresh"], input=pickle.dumps(calls, protocol=4), capture_output=True, timeout=120, env=env)
+    except subprocess.TimeoutExpired:
+        ctx.notes["fresh-interpreter-timeout(inconclusive)"] += 1
+        return fails
+    if r.returncode != 0:
+        ctx.notes["fresh-interpreter-failed(inconclusive):" + r.stderr.decode(errors="replace")[-120:]] += 1
+        return fails
+    there = pickle.loads(r.stdout)
+    for t, (c, x, y) in enumerate(zip(case["calls"], here, there)):
+        if x[0] != y[0] or (x[0] == "exc" and x[1] != y[1]):
+            d = "in the worker: %s, in a fresh interpreter: %s" % (x[0] if x[0] == "ok" else x[1], y[0] if y[0] == "ok" else y[1])
+        elif x[0] == "ok":
+            d = compare.deep_equal(x[1], y[1], 0.0, 0.0)
+        else:
+            d = None
+        if d:
+            fails.append(Failure("%s:result-depends-on-earlier-calls-in-the-process" % c["fn"],
+                                 "call %d of %d (seed %d): %s" % (t + 1, len(calls), c["seed"], d), case))
+            break
+    if any(x[0] == "ok" for x in here):
+        ctx.mark_nontrivial(case)
+    return fails
+
+
+_check_history = None
+
+
+@st.composite
+def cases_fresh(draw):
+    calls = []
+    if draw(st.booleans()):
+        # latticisation family on networks of one size, default and caller-supplied distance matrices mixed
+        n = draw(st.integers(5, 9))
+        for _ in range(draw(st.integers(2, 5))):
+            name = draw(st.sampled_from(rewire.LATMIO))
+            directed = name in rewire.DIR
+            A, _ = draw((rewire.dir_adj if directed else rewire.und_adj)(n, n, name in rewire.CONNECTED))
+            A = rewire.shuffle(draw, A)
+            W = draw(gen.weights_for(A, draw(st.sampled_from(["dyadic", "bin"])), directed))
+            D = None
+            if draw(st.booleans()):
+                vals = draw(st.lists(st.integers(0, 6), min_size=n * (n - 1) // 2, max_size=n * (n - 1) // 2))
+                D = np.zeros((n, n))
+                for (i, j), v in zip(gen.pairs(n, False), vals):
+                    D[i, j] = D[j, i] = v
+            calls.append({"fn": name, "args": [W, draw(st.integers(1, 2))], "kwargs": {"D": D}, "seed": draw(st.integers(0, 5))})
+    else:
+        for _ in range(draw(st.integers(2, 5))):
+            fn = draw(st.sampled_from(MIXED_POOL + rewire.LATMIO))
+            a, kw = draw(arg_strategy(fn))
+            calls.append({"fn": fn, "args": list(a), "kwargs": kw, "seed": draw(st.integers(0, 5))})
+    return {"fn": "<fresh>", "calls": calls}
+
+
+@st.composite
+def cases_dense(draw):
+    """larger and nearly complete networks (n 32..40, at most ~5% of the pairs unconnected): size / density classes of their own"""
+    name = draw(st.sampled_from(["randmio_und_connected", "randmio_und", "randmio_dir", "randmio_dir_connected", "latmio_und", "latmio_und_connected",
+                                 "randmio_und_signed", "randmio_dir_signed"]))
+    directed = "_dir" in name
+    n = draw(st.integers(32, 40))
+    A = np.ones((n, n), dtype=bool)
+    np.fill_diagonal(A, False)
+    holes = draw(st.lists(st.tuples(st.integers(0, n - 1), st.integers(0, n - 1)), min_size=4, max_size=n * (n - 1) // 40))
+    for (i, j) in holes:
+        if i != j:
+            A[i, j] = False
+            if not directed:
+                A[j, i] = False
+    W = A.astype(float)
+    if name.endswith("_signed"):
+        sg = draw(st.lists(st.booleans(), min_size=n, max_size=n))
+        S = np.where(np.logical_xor.outer(np.array(sg), np.array(sg)), -1.0, 1.0)
+        W = W * (S if not directed else S)
+    ops = [["draw", "rand", 3], ["seeded", draw(st.integers(0, 5))], ["draw", "randint", 2], ["seeded", draw(gen.seeds())]]
+    kwargs = {"D": None} if name in rewire.LATMIO else {}
+    return {"fn": name, "args": [W, 1], "kwargs": kwargs, "ops": ops}
+
+
 MIXED_POOL = ["randmio_und", "randmio_dir", "latmio_und", "randmio_und_signed", "null_model_und_sign", "makerandCIJ_und", "makerandCIJ_dir",
               "makeringlatticeCIJ", "makeevenCIJ", "community_louvain", "modularity_louvain_und", "modularity_finetune_und",
               "modularity_louvain_und_sign", "modularity_probtune_und_sign", "core_periphery_dir", "rentian_scaling", "nbs_bct",
@@ -397,7 +506,9 @@ def cases_mixed(draw):
 
 
 def units(tier):
-    us = [Unit("mixed-history", check, strategy=cases_mixed, examples=(600, 8000), shards=(8, 16))]
+    us = [Unit("mixed-history", check, strategy=cases_mixed, examples=(600, 8000), shards=(8, 16)),
+          Unit("fresh-interpreter-differential", check, strategy=cases_fresh, examples=(320, 3200), shards=(16, 16)),
+          Unit("dense-n>=32", check, strategy=cases_dense, examples=(32, 320), shards=(16, 16))]
     BOUNDS["seed_accepting_functions"] = len(seed_functions())
     BOUNDS["uncovered"] = [n for n in seed_functions() if n not in registered()]
     for name in registered():
